@@ -2997,6 +2997,8 @@ static int scan_triple_delim_string(struct scanner_s *scanner) {
             } else {
                 delim_count = 0;
                 if (CLASS_OF(c, scanner) == EOL_CLASS) {
+                    /* SCAN_UCHAR() counted the line terminator, but it does not contribute to the line's length */
+                    POSN_INCCOLUMN(scanner, -1);
                     HANDLE_EOL(scanner, c, sol);
                 } else {
                     sol = 0;
@@ -3063,6 +3065,8 @@ static int scan_text(struct scanner_s *scanner) {
                     }
                     break;
                 case EOL_CLASS:
+                    /* SCAN_UCHAR() counted the line terminator, but it does not contribute to the line's length */
+                    POSN_INCCOLUMN(scanner, -1);
                     /* HANDLE_EOL(scanner, c, sol); */
                     do {
                         struct scanner_s *_s_eol = (scanner);
